@@ -1257,9 +1257,13 @@ class MultiReader(IndexReader):
 def combine_terminfos(tis):
     if len(tis) == 1:
         ti, offset = tis[0]
-        ti._minid += offset
-        ti._maxid += offset
-        return ti
+        if not offset:
+            return ti
+        # (A new object: the sub-reader's one may be shared, as in the memory
+        # codec, and would move on with every call)
+        return TermInfo(ti.weight(), ti.doc_frequency(), ti.min_length(),
+                        ti.max_length(), ti.max_weight(),
+                        ti.min_id() + offset, ti.max_id() + offset)
 
     # Combine the various statistics
     w = sum(ti.weight() for ti, _ in tis)
